@@ -142,7 +142,8 @@ func crossRandom(r *hx.Rand, i int, elem string) crossMod {
 			feats = append(feats, p+":minted")
 		}
 		if r.Intn(3) == 0 {
-			fmt.Fprintf(&s, "func Own(m map[%s]bool) int { return len(deriveSetOwn(deriveKeysOwn(m))) }\n\n", hx.Pick(r, keys))
+			// key types of its own: the same type under two names (deriveKeys | deriveKeysOwn) is rightly refused
+			fmt.Fprintf(&s, "func Own(m map[%s]bool) int { return len(deriveSetOwn(deriveKeysOwn(m))) }\n\n", hx.Pick(r, []string{"int16", "uint32", "float32", "uint64", "int8"}))
 			feats = append(feats, p+":own-nested")
 		}
 		files[p+"/"+p+".go"] = s.String()
